@@ -179,11 +179,18 @@ def scenario(sh: Shard, seed, idx, action, t_crash, shape, regime, suspend):
             return
         sh.evaluations += 1
         wit = {"action": action, "at": t_crash, "shape": shape, "regime": regime, "suspend": suspend, "state_at_crash": out.get("state_at_crash"), "scenario": f"{seed}:{idx}"}
+        # the non-atomic reset of C08/C09 (sequence pump made progress while the reset was
+        # suspended in a client handler) is one mechanism with its own fingerprint
+        def pump_inside(rec):
+            return any(e["task"] == "SPAMAN:Sequence Pump" and rec["seq0"] < e["seq"] < rec.get("seq1", 1 << 60) for e in mw.events)
+
+        mech = ":pump-interleaved-reset" if any(x["api"] == "async_reset" and pump_inside(x) for x in mw.api) else ""
+        wit["pump_interleaved_reset"] = bool(mech)
         for key, what in out["problems"]:
-            sh.violation(key, what, wit)
+            sh.violation(key + mech, what, wit)
         late = wat.late_calls()
         if late:
-            sh.violation("C10:late-observer-call", f"{len(late)} client observer call(s) after the teardown returned, e.g. {late[0][2]} at +{late[0][0] - wat.retired_at[late[0][1]]:.2f}s", dict(wit, calls=[(round(t, 2), g, w_) for t, g, w_ in late[:5]]))
+            sh.violation("C10:late-observer-call" + mech, f"{len(late)} client observer call(s) after the teardown returned, e.g. {late[0][2]} at +{late[0][0] - wat.retired_at[late[0][1]]:.2f}s", dict(wit, calls=[(round(t, 2), g, w_) for t, g, w_ in late[:5]]))
         sh.count("observer_calls_total", len(wat.calls))
         sh.count("generations_watched", wat.generation)
         sh.count("transports_created", len(loop.transports))
